@@ -552,7 +552,7 @@ class Sym:
                 env[nm] = self.ev(callee, Path_({}, {}), d)
                 psub[nm] = d if isinstance(d, ast.Constant) else None
         sub = Path_(env, psub, list(p.conds), list(p.sinks))
-        outs = [o for o in self.block(callee, [sub], body_of(fn)) if not o.raised]
+        outs = merge_paths([o for o in self.block(callee, [sub], body_of(fn)) if not o.raised], f"{rel2}:{fn.name}", True)
         if not outs:
             self.fail(fr.rel, call, "helper raises on every path")
         results = [(o.conds, o.sinks, o.ret if o.ret is not None else var("const:None")) for o in outs]
@@ -712,13 +712,19 @@ class Sym:
 
     def if_stmt(self, fr: Frame, p: Path_, st: ast.If):
         cond = self.subst(st.test, p.psub)
+        body, orelse = st.body, st.orelse
+        while isinstance(cond, ast.UnaryOp) and isinstance(cond.op, ast.Not):
+            cond, body, orelse = cond.operand, orelse, body      # `if not c: A else: B` == `if c: B else: A`
+        cond = fold_const(cond)
         if isinstance(cond, ast.Constant):               # an option fixed by the caller (usaf -> load_image)
-            return self.block(fr, [p], st.body if cond.value else st.orelse)
+            return self.block(fr, [p], body if cond.value else orelse)
         if cond is not None:
             a, b = p, p.fork()
             a.conds.append(ast.unparse(cond))
             b.conds.append(ast.unparse(ast.UnaryOp(op=ast.Not(), operand=cond)))
-            return self.block(fr, [a], st.body) + self.block(fr, [b], st.orelse)
+            if body is st.body:
+                return self.block(fr, [a], body) + self.block(fr, [b], orelse)
+            return self.block(fr, [b], orelse) + self.block(fr, [a], body)       # rows in source order
         if self.only_raises(st.body):
             return self.block(fr, [p], st.orelse)        # a guard on something else than the options
         # a branch on a run-time value: followed on both sides; it must not reach a bucket, return or raise, and
@@ -727,8 +733,19 @@ class Sym:
         tv = bad("state", "detector") if tv in (DET, SRC) else tv
         outs = self.block(fr, [p.fork()], st.body) + self.block(fr, [p.fork()], st.orelse)
         for o in outs:
-            if o.raised or o.done or o.sinks != p.sinks or o.conds != p.conds:
-                self.fail(fr.rel, st, "branch on something else than the model's options reaches a bucket / returns")
+            if not o.raised and (o.sinks != p.sinks or o.conds != p.conds):
+                self.fail(fr.rel, st, "branch on something else than the model's options reaches a bucket")
+        # guard clause / early return on a run-time value == the rest of the function nested in the other branch: a side
+        # that leaves the function stays a path of its own (a refusal is dropped, a `return` is kept with what has
+        # reached the buckets so far); `merge_paths` at the end of the function demands that all paths under the same
+        # option conditions added the same expressions - otherwise the run-time value decides the increment: fail closed
+        left = [o for o in outs if o.done and not o.raised]
+        outs = [o for o in outs if not (o.raised or o.done)]
+        if not outs:
+            if not left:
+                p.raised = True
+                return [p]
+            return left
         changed = sorted({k for o in outs for k, v in o.env.items() if p.env.get(k) != v})
         for k in changed:
             vals = [o.env.get(k, p.env.get(k, var("global:" + k))) for o in outs]
@@ -744,7 +761,38 @@ class Sym:
             else:
                 p.env[k] = worst_bad([tv] + vals, "branch:" + k)
             p.psub.pop(k, None)
-        return [p]
+        return [p] + left
+
+
+def fold_const(cond):
+    """A test made of literals only (an option fixed by the caller, after substitution) -> its value."""
+    if cond is None or isinstance(cond, ast.Constant):
+        return cond
+    if all(isinstance(n, (ast.Constant, ast.BoolOp, ast.UnaryOp, ast.Compare, ast.boolop, ast.unaryop, ast.cmpop,
+                          ast.Tuple, ast.List, ast.Load, ast.IfExp)) for n in ast.walk(cond)):
+        try:
+            v = eval(compile(ast.fix_missing_locations(ast.Expression(body=cond)), "<fold>", "eval"), {"__builtins__": {}}, {})  # noqa: S307
+        except Exception:  # noqa: BLE001
+            return cond
+        return ast.Constant(value=bool(v))
+    return cond
+
+
+def merge_paths(outs, where, with_ret=False):
+    """Paths that differ only by run-time branches (same option conditions): one path if they agree on what reached the
+    buckets (and, inside a helper, on the value returned); otherwise a run-time value decides the increment."""
+    merged, seen = [], {}
+    for o in outs:
+        key = tuple(o.conds)
+        if key not in seen:
+            seen[key] = o
+            merged.append(o)
+            continue
+        q = seen[key]
+        if q.sinks != o.sinks or (with_ret and (q.ret if q.ret is not None else var("const:None")) != (o.ret if o.ret is not None else var("const:None"))):
+            raise TranslationError(f"{where}: under the options [{' & '.join(o.conds)}] a branch on a run-time value decides "
+                                   f"what is added to a bucket / returned (early return before the bucket is reached?)")
+    return merged
 
 
 def body_of(fn):
@@ -772,11 +820,9 @@ def model_rows(sym: Sym, rel: str, qn: str, fn) -> list[dict]:
         psub[nm] = ast.Name(id=nm, ctx=ast.Load())
     fr = Frame(rel, fn, 0)
     sym.call_names = {}
-    outs = sym.block(fr, [Path_(env, psub)], body_of(fn))
+    outs = merge_paths([o for o in sym.block(fr, [Path_(env, psub)], body_of(fn)) if not o.raised], f"{rel}:{qn}")
     rows = []
     for o in outs:
-        if o.raised:
-            continue
         if len(o.sinks) != 1:
             raise TranslationError(f"{rel}:{qn}: path [{' & '.join(o.conds)}] adds to {len(o.sinks)} buckets (expected 1)")
         kind, v = o.sinks[0]
